@@ -679,7 +679,9 @@ func (s *programState) receiveFrom(destination parser.Destination, amount *big.I
 
 		handler := func(keptOrDest parser.KeptOrDestination, amountToReceive *big.Int) InterpreterError {
 			if amountToReceive.Cmp(big.NewInt(0)) == 0 {
-				return nil
+				// nothing to receive, but the clause is still visited so that an
+				// ill-formed nested destination (e.g. portions not summing to one) is reported
+				return s.receiveFromKeptOrDest(keptOrDest, big.NewInt(0))
 			}
 
 			err := s.receiveFromKeptOrDest(keptOrDest, amountToReceive)
@@ -703,7 +705,11 @@ func (s *programState) receiveFrom(destination parser.Destination, amount *big.I
 
 			// If the remaining amt is zero, let's ignore the posting
 			if remainingAmount.Cmp(big.NewInt(0)) == 0 {
-				break
+				err = handler(destinationClause.To, big.NewInt(0))
+				if err != nil {
+					return err
+				}
+				continue
 			}
 
 			err = handler(destinationClause.To, utils.MinBigInt(cap, remainingAmount))
